@@ -290,4 +290,66 @@ theorem meshFold_eq_stateRev (a : List MeshOp) : meshFold {} a = stateRev a.reve
   have := meshFold_stateRev [] a
   simpa [stateRev] using this
 
+/-! ### projection labels -/
+
+theorem mergeLabels_of_subset (a n : List Nat) (h : ∀ x ∈ n, x ∈ a) : mergeLabels a n = a := by
+  unfold mergeLabels
+  induction n with
+  | nil => rfl
+  | cons l ls ih =>
+      simp only [List.foldl_cons]
+      have hl : a.contains l = true := by simpa using h l (by simp)
+      rw [if_pos hl]
+      exact ih (fun x hx => h x (by simp [hx]))
+
+theorem mergeLabels_idem (a n : List Nat) : mergeLabels (mergeLabels a n) n = mergeLabels a n :=
+  mergeLabels_of_subset _ _ (fun x hx => (mergeLabels_mem a n x).mpr (Or.inr hx))
+
+theorem mergeLabels_disjoint (a n : List Nat) (hn : n.Nodup) (hd : ∀ x ∈ n, x ∉ a) : mergeLabels a n = a ++ n := by
+  unfold mergeLabels
+  induction n generalizing a with
+  | nil => simp
+  | cons l ls ih =>
+      simp only [List.foldl_cons]
+      have hl : ¬ a.contains l = true := by simpa using hd l (by simp)
+      rw [if_neg hl]
+      have hn' := List.nodup_cons.mp hn
+      rw [ih (a ++ [l]) hn'.2]
+      · simp
+      · intro x hx
+        simp only [List.mem_append, List.mem_cons, List.not_mem_nil, or_false, not_or]
+        exact ⟨hd x (by simp [hx]), fun h => hn'.1 (h ▸ hx)⟩
+
+theorem mergeLabels_nil (n : List Nat) (hn : n.Nodup) : mergeLabels [] n = n := by
+  simpa using mergeLabels_disjoint [] n hn (by simp)
+
+theorem slotUpdate_accept_len (stored new : List Nat) (h : (slotUpdate stored new).1 = .accept) :
+    (slotUpdate stored new).2.length ≤ 2 := by
+  simp only [slotUpdate] at h ⊢
+  split_ifs at h ⊢ with h1 h2 h3
+  · show new.length ≤ 2; omega
+  · show (mergeLabels stored new).length ≤ 2; omega
+
+theorem applySlot_bounded (st : PState) (s : Nat) (new : List Nat) (hb : Bounded st)
+    (h : (applySlot st s new).1 = .accept) : Bounded (applySlot st s new).2 := by
+  intro ls hls
+  simp only [applySlot] at hls h
+  rcases List.mem_or_eq_of_mem_set hls with h1 | h1
+  · exact hb ls h1
+  · rw [h1]; exact slotUpdate_accept_len _ _ h
+
+theorem seqSlots_bounded (slots new : List Nat) (st : PState) (hb : Bounded st)
+    (h : (seqSlots slots new st).1 = .accept) : Bounded (seqSlots slots new st).2 := by
+  induction slots generalizing st with
+  | nil => simpa [seqSlots] using hb
+  | cons s ss ih =>
+      unfold seqSlots at h ⊢
+      cases ha : (applySlot st s new).1 with
+      | accept =>
+          simp only [ha] at h ⊢
+          exact ih _ (applySlot_bounded st s new hb ha) h
+      | reject c =>
+          simp only [ha] at h
+          exact Out.noConfusion h
+
 end CBV.C20
